@@ -48,7 +48,7 @@ TRUSTED = [
     "the derived constants are sent as numbers; their formulas are theorem derived_constants_used + C19",
 ]
 ASSUMPTIONS = [
-    "valid configurations: 0 < solid_fraction < 1, positive heat capacities, dt > 0, batch shapes with ny >= 2 or nz = 1",
+    "valid configurations: 0 < solid_fraction < 1, positive heat capacities, dt > 0",
     "time steps inside the explicit scheme's stability range (dt·Hsum <= 0.9·m·c_p), otherwise rounding is amplified "
     "beyond the comparison tolerance",
     "continuous comparisons use rtol 1e-9 (abs 1e-9 below 1); a decision whose float margin is < 1e-9 is a TIE",
@@ -351,11 +351,11 @@ def _structured(rng, tier):
     big = 64 if tier == "quick" else 200
     while True:
         if pallet:
-            shape = [rng.randint(1, 5), rng.randint(2, 5), rng.randint(2, 4)]
+            shape = [rng.randint(1, 5), rng.randint(1, 5), rng.randint(2, 4)]
         else:
-            shape = [rng.randint(1, 8), rng.randint(2, 8), 1]
+            shape = [rng.randint(1, 8), rng.randint(1, 8), 1]
             if rng.random() < 0.1:
-                shape = [1, 1, 1] if arrangement == "square" else [2, 2, 1]
+                shape = [1, 1, 1]
         if shape[0] * shape[1] * shape[2] <= big:
             break
     k = {"int": rng.choice([0, 5, 20, 50.5]), "ext": rng.choice([0, 5, 20, 100, 300 if pallet else 20])}
